@@ -73,6 +73,15 @@ def _interleavings(lens: list[int]):
 
 def gen_cases(tier: str, seed: int):
     r = random.Random(f"{seed}:C13")
+    # fixed single-session shapes: a second transaction after COMMIT / ROLLBACK is a transaction of its own; a failing
+    # statement does not end the open transaction
+    for end1 in ("commit", "rollback"):
+        for end2 in ("commit", "rollback"):
+            for how in ("sql", "api"):
+                s0 = [["begin", 0], ["ins_own", 0], [end1, 0, how], ["begin", 1], ["ins_own", 1], ["upd_own", 0], [end2, 1, how], ["sel", 0]]
+                yield {"scripts": [s0, [["sel", 0]]], "order": [0] * len(s0) + [1]}
+            s1 = [["begin", 0], ["ins_own", 0], ["fail", 1], ["ins_sh", 0], [end1, 0, "sql"], ["sel", 1], ["begin", 0], ["fail", 0], [end2, 1, "api"]]
+            yield {"scripts": [s1, [["sel", 0], ["ins_sh", 0]]], "order": [0] * 5 + [1] + [0] * 4 + [1]}
     npairs = 40 if tier == "quick" else 1200
     for _ in range(npairs):
         scripts = [_gen_script(r, 4), _gen_script(r, 4)]
